@@ -13,6 +13,8 @@ META = {
 def run(c):
     c.tlc_mc("MSSMsg", "MCMSSMsg.cfg")
     c.tlc_mc("MSSMsg", "MCMSSMsg_canary.cfg", expect="RejectTooMany")
+    if not c.quick:
+        c.tlc_mc("MSSMsg", "MCMSSMsg5.cfg", timeout=1500)
     drv = c.build("drv-mss")
     if c.replay:
         t = c.rundir / "replay_trace.ndjson"
